@@ -17,4 +17,4 @@ for C in "$@"; do
   echo "$C exit=$RC $(grep -c '^VIOLATION' "$OUT/$C.log") violation line(s): $(grep '^VIOLATION' "$OUT/$C.log" | head -2 | cut -c1-260 | sed 's/.*# //' | tr '\n' '|')"
 done
 git -C /repo worktree remove --force "$WT"
-rm -rf "$OUT"
+[ -n "${KEEP:-}" ] && echo "kept $OUT" || rm -rf "$OUT"
